@@ -229,9 +229,15 @@ def run(ctx):
     # applies - no tick while stopped - and is checked on the implementation's histories alone.
     zero = [c for c in cases if len(c) <= 3] + [['s', 'x', 'w2600'], ['s', 'a50', 'x', 'a50', 'w500'], ['s', 'w100', 'x', 'w100', 's', 'x', 'w100']]
     zpath = os.path.join(d, 'cases0.txt')
+    # likewise intervals so long that now + interval is not representable (2^63 s and more): outside the model, whose arithmetic
+    # is exact; on the pinned code the timer task ends in tokio's overflow panic and such a timer never ticks
+    huge = [(secs, ops) for secs in (1 << 63, (1 << 64) - 1) for ops in
+            (['s', 'w2600'], ['s', 'a2600', 'r', 'w2600', 'w2600'], ['s', 'r', 'w2600'], ['s', 'a97', 'r', 'a97', 'r', 'w5200', 'x', 'w2600'])]
     with open(zpath, 'w') as f:
         for ops in zero:
             f.write('TMR 0 %s\n' % ','.join(ops))
+        for secs, ops in huge:
+            f.write('TMR %d %s\n' % (secs, ','.join(ops)))
     zimpl, _ = core.run_tool(ctx.harness, ['c20', 'obs', zpath], timeout=3000)
     n_zero = 0
     for l in zimpl:
@@ -246,7 +252,7 @@ def run(ctx):
                 ctx.violation('a timer history did not end within 30 s of wall-clock time under a paused clock (a task that spins)', case=head, impl=l)
             continue
         n_zero += 1
-        oracle(ctx, head.split()[2].split(','), obs.split(), l, 0)
+        oracle(ctx, head.split()[2].split(','), obs.split(), l, 1000 * int(head.split()[1]))
     n_over = 0
     n_tick = 0
     n_stale = 0
